@@ -1,13 +1,13 @@
 SPECIFICATION Spec
 CONSTANTS
   Indexes = {1}
-  Ids = {1, 2}
-  Toks = {"a"}
+  Ids = {1, 2, 3}
+  Toks = {"a", "b"}
   Metrics = {"f"}
   Dim = 2
   Caps = {1}
-  Reqs = {0, 1, 2, 3}
-  MaxBuilds = 3
+  Reqs = {2}
+  MaxBuilds = 1
   MaxTrivial = 1
   MinBatch = 2
   AsCodedInsert = FALSE
@@ -30,6 +30,10 @@ INVARIANTS
   NoPanic
   NoInternalError
   IdsBounded
+  SearchExactWhenUnlimited
+  VisitMonotoneInBudget
+  SelfLookupWithBudgetOne
+  BudgetSaturates
 PROPERTIES
   OthersUntouched
 CHECK_DEADLOCK FALSE
